@@ -68,9 +68,13 @@ ServerUp == /\ ~up /\ up' = TRUE /\ Env
             /\ UNCHANGED <<sk, pc, refuse, alive, cutoff, rem, rep>>
 ServerDown == /\ up /\ up' = FALSE /\ refuse' = FALSE /\ Env
               /\ UNCHANGED <<sk, pc, alive, cutoff, rem, rep>>
-\* the far side resets / closes the established connection
-Reset == /\ sk = "estab" /\ sk' = "reset" /\ Env
-         /\ UNCHANGED <<up, pc, refuse, alive, cutoff, rem, rep>>
+\* the established connection ends on the far side.  kind: "close" = orderly close (recv returns no bytes), "abort" = the
+\* peer aborts or the path dies (recv raises ECONNRESET / ETIMEDOUT / EHOSTUNREACH / ENETRESET), "send" = the loss shows
+\* when the client next sends queued data (send raises such an error).  All are the one way into the cut off state:
+\* "this signals need to close/reopen connection" - what follows is the same whichever way the loss showed
+ResetKinds == {"close", "abort", "send"}
+Reset(kind) == /\ kind \in ResetKinds /\ sk = "estab" /\ sk' = "reset" /\ Env
+               /\ UNCHANGED <<up, pc, refuse, alive, cutoff, rem, rep>>
 \* the listening server will refuse the next attempt (backlog full ...)
 Refuse == /\ up /\ ~refuse /\ ~alive /\ refuse' = TRUE /\ Env
           /\ UNCHANGED <<up, sk, pc, alive, cutoff, rem, rep>>
@@ -123,7 +127,7 @@ AnyService == \E r \in {"ok", "prog", "refused", "na"}, lazy \in BOOLEAN : Servi
 OkService == \E lazy \in BOOLEAN : Service("ok", lazy)
 
 Next == \/ \E dt \in 1..MaxAdv : Advance(dt)
-        \/ ServerUp \/ ServerDown \/ Reset \/ Refuse \/ UserReopen
+        \/ ServerUp \/ ServerDown \/ (\E kind \in ResetKinds : Reset(kind)) \/ Refuse \/ UserReopen
         \/ \E r \in {"ok", "prog", "refused", "na"}, lazy \in BOOLEAN : Service(r, lazy)
 Spec == Init /\ [][Next]_vars
 
